@@ -50,8 +50,8 @@ COMPONENTS = {
     "stub": ["mpi4py.MPI -> SimComm/SimWorld", "wall clock -> simulated clock (driver.time)", "stdout -> buffer"],
     "harness": ["subclass of the repo propagator overriding propagate/init_prop_data (monitor + fault overlay), no source hook"],
 }
-REQUIRED_PROBES = {"quick": ["qr_nontrivial", "sr_changed_population", "driver_runs", "ad_entry_runs"],
-                   "thorough": ["qr_nontrivial", "sr_changed_population", "driver_runs", "ad_entry_runs", "walker_killed", "fault_fired"]}
+REQUIRED_PROBES = {"quick": ["qr_nontrivial", "sr_changed_population", "driver_runs", "ad_entry_runs", "driver_block_transitions_replayed"],
+                   "thorough": ["qr_nontrivial", "sr_changed_population", "driver_runs", "ad_entry_runs", "walker_killed", "fault_fired", "driver_block_transitions_replayed"]}
 
 
 def menu_entry(k):
@@ -288,6 +288,7 @@ def _execute_driver(cfg, ctx, s, smp, faults):
     rows = lab.parse_samples(raw)
     if rows.shape[0] != R * cfg["n_blocks"]:
         ctx.violation("coherence.samples_raw_rows", site, {"trigger": {"entry": "driver", "wt": cfg["wt"]}, "rows": int(rows.shape[0]), "expected": R * cfg["n_blocks"]})
+    driver_replay(ctx, cfg, s, smp, out, faults, rows)
     w = out["world"]
     for k in ("eager", "rendezvous", "collectives", "sched_decisions", "clock_jumps", "straggler_skips"):
         ctx.count(k, w.stats[k])
@@ -312,6 +313,104 @@ def _execute_driver(cfg, ctx, s, smp, faults):
         "sample": {"cfg": {k: cfg[k] for k in cfg}, "monitor_rank0": mons[0], "returned": [str(x) for x in out["returns"][0]],
                    "samples_raw_head": raw.decode().splitlines()[:3], "schedule_head": w.sched_trace[:30], "events_head": log.head[:10]},
     }
+
+
+def driver_entry(cfg):
+    """Which sampler entry point driver.afqmc selects for these options."""
+    if cfg["ad_mode"] is None:
+        return "plain"
+    if not cfg["orbital_rotation"] and not cfg["do_sr"]:
+        return "ad_nosr_norot"
+    if not cfg["orbital_rotation"]:
+        return "ad_norot"
+    if not cfg["do_sr"]:
+        return "ad_nosr"
+    return "ad"
+
+
+def driver_replay(ctx, cfg, s, smp, out, faults, rows):
+    """Refinement of the driver loop across ranks and iterations, from the recorded
+    history (prop_data of every rank pickled by the driver after each block): block n ->
+    block n+1 must equal [serial reference comb on the rank-ordered population with the
+    root's offset] followed by [step-by-step replay of the sampler call with explicit
+    overlap refreshes] followed by the driver's QR."""
+    import jax.numpy as jnp
+    from jax import random as jr
+
+    from ..models import comb
+
+    R, nb, nw = cfg["R"], cfg["n_blocks"], cfg["n_walkers"]
+    site = "driver.afqmc"
+    entry = driver_entry(cfg)
+    trig = {"entry": "driver", "wt": cfg["wt"]}
+    unres = cfg["wt"] != "restricted"
+    if rows.shape[0] != R * nb:
+        return
+    for n in range(nb - 1):
+        P = [out["pickles"][r][n] for r in range(R)]
+        Q = [out["pickles"][r][n + 1] for r in range(R)]
+        wts = np.concatenate([np.asarray(p_["weights"]) for p_ in P])
+        if not np.all(np.isfinite(wts)) or float(np.sum(np.abs(wts))) <= 0:
+            ctx.count("driver_replay_skipped_extinct")
+            return
+        # (how the running estimate is mixed is not part of the statement: the replay takes
+        # e_estimate of block n+1 from the recorded history)
+        # reference global reconfiguration
+        newkeys, zetas = [], []
+        for r in range(R):
+            k2, sub = jr.split(P[r]["key"])
+            newkeys.append(k2)
+            zetas.append(float(jr.uniform(sub)))
+        absw = [abs(float(x)) for x in wts]
+        if comb.distance_to_breakpoint(absw, zetas[0]) < 1e-7:
+            ctx.count("driver_replay_skipped_at_threshold")
+            return
+        idx = comb.comb_indices(absw, zetas[0])
+        wnew = float(np.sum(np.abs(wts))) / (R * nw)
+        if unres:
+            Wu = np.concatenate([np.asarray(p_["walkers"][0]) for p_ in P])
+            Wd = np.concatenate([np.asarray(p_["walkers"][1]) for p_ in P])
+        else:
+            Wr = np.concatenate([np.asarray(p_["walkers"]) for p_ in P])
+        for r in range(R):
+            sel = np.array(idx[r * nw : (r + 1) * nw])
+            pd = {k: v for k, v in P[r].items() if not k.startswith("verif_")}
+            pd["walkers"] = [jnp.array(Wu[sel]), jnp.array(Wd[sel])] if unres else jnp.array(Wr[sel])
+            pd["weights"] = jnp.ones(nw) * wnew
+            pd["key"] = newkeys[r]
+            pd["e_estimate"] = Q[r]["e_estimate"]
+            step0 = [int(round(float(np.asarray(P[r]["verif_step"]))))]
+
+            def hook(f, step0=step0):
+                o = _overlay_np(f, faults, step0[0]) if faults else f
+                step0[0] += 1
+                return o
+
+            er, pdr, _ = replay.replay_entry(s, smp, entry, pd, s.plain, field_hook=hook)
+            pdr = s.plain.orthonormalize_walkers(lab.copy_pd(pdr))
+            where = f"block {n}->{n + 1} rank {r} of {R}"
+            if not np.array_equal(np.asarray(pdr["key"]), np.asarray(Q[r]["key"])):
+                ctx.violation("coherence.driver_key_stream_differs_from_replay", site, {"trigger": trig, "where": where, "menu": cfg["menu"]})
+            wq = np.asarray(Q[r]["weights"])
+            if not _close(wq, pdr["weights"], 1e-8, 1e-12):
+                ctx.violation("coherence.driver_weights_differ_from_replay", site,
+                              {"trigger": trig, "where": where, "driver": wq.tolist(), "replay": np.asarray(pdr["weights"]).tolist(), "menu": cfg["menu"],
+                               "selected_by_reference_comb": sel.tolist(), "zeta_root": zetas[0]})
+                return
+            live = np.asarray(pdr["weights"]) > 0
+            wa = Q[r]["walkers"] if unres else [Q[r]["walkers"]]
+            wb = pdr["walkers"] if unres else [pdr["walkers"]]
+            for x, y in zip(wa, wb):
+                x, y = np.asarray(x)[live], np.asarray(y)[live]
+                if x.size and not _close(x, y, 1e-7, 1e-8):
+                    ctx.violation("coherence.driver_walkers_differ_from_replay", site, {"trigger": trig, "where": where, "max_abs_diff": float(np.nanmax(np.abs(x - y))), "menu": cfg["menu"]})
+                    return
+            row = rows[(n + 1) * R + r]
+            if np.isfinite(er) and not abs(row[1] - er) <= 2e-6 * max(1.0, abs(er)):
+                ctx.violation("coherence.driver_block_energy_differs_from_replay", site, {"trigger": trig, "where": where, "driver_sample": float(row[1]), "replay": er, "menu": cfg["menu"]})
+                return
+            ctx.count("driver_block_transitions_replayed")
+            ctx.probe("driver_block_transitions_replayed", 1)
 
 
 def shrink_candidates(cfg, decisions):
